@@ -400,6 +400,7 @@ def run(ctx):
     digests = SP.DIGEST
     nodes: list[Miniscript] = []
     s1_nodes: list[Miniscript] = []
+    quorums: list[Miniscript] = []
     seeds = vector_seeds()
     ctx.count("source", "vector", len(seeds))
     nodes += seeds
@@ -441,6 +442,17 @@ def run(ctx):
             for i in range(rng.choice([100, 101, 102, 103, 110]))), threshold=2)
         nodes.append(big)
         ctx.count("source", "oversize" if big.script_size > limit else "large")
+        # many-key quorums: multi() up to the 20 keys OP_CHECKMULTISIG takes (the key count is a data push from 17
+        # on), multi_a() past the point where one signature and n-1 empty pushes meet BIP342's sigops budget
+        frag = "multi_a" if c == TAPSCRIPT else "multi"
+        for cnt in (sorted({1, 2, 15, 16, 17, 18, 19, 20} | {rng.randrange(1, 21)}) if c == P2WSH
+                    else sorted({1, 2, 10, 11, 12, 16, 17, 40} | {rng.randrange(1, 17)})):
+            kq = rng.choice(sorted({1, 2, cnt // 2 or 1, cnt}))
+            q = Miniscript(frag, c, keys=tuple(ks[i % len(ks)] for i in range(cnt)), threshold=min(kq, cnt))
+            nodes.append(q)
+            ctx.count("source", "quorum")
+            if cnt <= len(ks):
+                quorums.append(q)
     for n in nodes:
         ctx.count("typed", "well-typed" if n.properties else "ill-typed")
         ctx.count("context", n.context)
@@ -488,7 +500,7 @@ def run(ctx):
                    and n.script_size < 700 and all(SP.key_index(written_key(n, k).hex()) is not None
                                                    for k in n.key_expressions)]
     rng.shuffle(spend_nodes)
-    spend_nodes = [n for n in s1_nodes if n in spend_nodes][:ctx.n(60, 1200)] + spend_nodes
+    spend_nodes = quorums + [n for n in s1_nodes if n in spend_nodes][:ctx.n(60, 1200)] + spend_nodes
     produced = 0
     exec_lines = []
     S1 = {"0", "1", "pk_k", "c:", "v:", "a:", "n:", "and_v", "and_b", "or_b", "or_c", "or_d", "or_i", "andor"}
